@@ -27,6 +27,8 @@
  *          "W <window>"  "C <bytes changed outside window and trampoline>"
  *          "CP <n> <perms before freeze> <perms after freeze>"   "END"
  *        or "FATAL <status>" when the child exits (pr_err) or dies.
+ *  MOD <pathname>
+ *        match_pattern_module() on the current list        -> "MO <0|1> <get_soname(pathname)|->"
  *  FIND <elf path> <wbase> <window> <nsym> {<addr> <size> <type> <name>}*
  *        (in a forked child) mcount_arch_find_module() for a module whose file is <elf path> (a real
  *        ELF without patchable/xray sections), whose code is the window and whose symbol table is the
@@ -191,6 +193,21 @@ static void do_query(void)
 	free(lib);
 	free(so);
 	free(name);
+}
+
+static void do_mod(void)
+{
+	char *path = unhex_str(next_tok());
+	char *so = get_soname(path);
+
+	printf("MO %d ", match_pattern_module(path));
+	if (so)
+		puthex((unsigned char *)so, strlen(so));
+	else
+		printf("-");
+	printf("\n");
+	free(so);
+	free(path);
 }
 
 static void upd_child(void)
@@ -411,6 +428,8 @@ int main(void)
 			do_pat();
 		else if (!strcmp(cmd, "Q"))
 			do_query();
+		else if (!strcmp(cmd, "MOD"))
+			do_mod();
 		else if (!strcmp(cmd, "UPD") || !strcmp(cmd, "FIND")) {
 			pid_t pid;
 			int status = 0;
